@@ -390,6 +390,11 @@ func (t *Tree) internalDelete(subpath []string, condition func(interface{}) bool
 			// An empty tree (zero value root) holds no leaf to delete.
 			return false, nil
 		default:
+			if len(subpath) != 0 {
+				// Path elements remain beyond the glob: like Query, a leaf only
+				// matches a path that ends here or in a single trailing glob.
+				return false, nil
+			}
 			if condition(t.leafBranch) {
 				// The second parameter is an empty path that will be filled as recursion
 				// unwinds for this leaf that will be deleted in its parent.
